@@ -56,9 +56,10 @@ def check(case, tr):
             if a != 0:
                 out.append(Discrepancy('C05/maxsize0-resident', 'step %d: %d resident with maxsize 0' % (i, a)))
         elif ms is None:
-            gone = set(map(repr, s.pre_mem)) - set(map(repr, s.post_mem))
+            # membership, not repr: a key holding a frozenset may print its elements in another order after a codec round trip
+            gone = [k for k in s.pre_mem if not _has(s.post_mem, k)]
             if gone:
-                out.append(Discrepancy('C05/maxsizeNone-evicts', 'step %d: %s left an unbounded cache' % (i, sorted(gone))))
+                out.append(Discrepancy('C05/maxsizeNone-evicts', 'step %d: %s left an unbounded cache' % (i, sorted(map(repr, gone)))))
         else:
             if a > max(ms, b):
                 out.append(Discrepancy('C05/%s/grows-past-bound' % algo,
